@@ -172,3 +172,37 @@ Definition unknown_rule_ok (inp out : list attr) : Prop :=
   (forall a, In a inp -> unknown_attr a -> transitive a -> exists b, In b out /\ same_but_partial a b)
   /\ (forall b, In b out -> unknown_attr b ->
         partial_set b /\ exists a, In a inp /\ unknown_attr a /\ transitive a /\ same_but_partial a b).
+
+(* ------------------------------------------------------------ reading a path back (RFC 4271 4.3) *)
+(* [encode_path] is the wire format; this reader shows the segment view is not
+   ambiguous: Proofs/Export.v proves [parse_path (encode_path p) = Some p]. *)
+Fixpoint read_asns (cnt : nat) (b : list N) : option (list N * list N) :=
+  match cnt with
+  | O => Some ([], b)
+  | S k =>
+    match b with
+    | x0 :: x1 :: x2 :: x3 :: r =>
+      match read_asns k r with
+      | Some (l, r') => Some (rd32 x0 x1 x2 x3 :: l, r')
+      | None => None
+      end
+    | _ => None
+    end
+  end.
+
+Fixpoint parse_path_fuel (fuel : nat) (b : list N) : option (list seg) :=
+  match fuel with
+  | O => match b with [] => Some [] | _ => None end
+  | S f =>
+    match b with
+    | [] => Some []
+    | [_] => None
+    | t :: n :: rest =>
+      match read_asns (N.to_nat n) rest with
+      | Some (asns, r) =>
+        match parse_path_fuel f r with Some p => Some ((t, asns) :: p) | None => None end
+      | None => None
+      end
+    end
+  end.
+Definition parse_path (b : list N) : option (list seg) := parse_path_fuel (length b) b.
